@@ -18,29 +18,41 @@ from ..tlc import read_export, run_tlc, validate_traces
 
 LEVEL = "model_checking"
 LAW = dict(EpsPct=30, C=4000, K=2500)
-ALLW, ALLC = set(range(1, 31)), set(range(1, 31))
+ALLW, ALLC, ALLB = set(range(1, 31)), set(range(1, 31)), set(range(1, 14))
+NOB = dict(BlockUse=set(), Prefixes={0})
 TIERS = {
-    "quick": [dict(Sizes={4, 8, 16}, WrapUse=ALLW, ChainUse=ALLC, BreakUse={1, 2, 3, 4, 5, 6}, Pairs=False, ChainScale=4, PatternWraps={1, 2, 4, 6})],
-    "thorough": [dict(Sizes={4, 8, 16, 32}, WrapUse=ALLW, ChainUse=ALLC, BreakUse={1, 2, 3, 4, 5, 6}, Pairs=False, ChainScale=8, PatternWraps={1, 2, 4, 6}),
-                 dict(Sizes={3, 6, 12}, WrapUse={1, 2, 4, 5, 6, 7, 8, 9, 10, 11, 12, 15, 20, 25, 28}, ChainUse=set(), BreakUse={1, 3, 5, 6}, Pairs=True, ChainScale=1, PatternWraps={1, 2, 4, 6})],
+    "quick": [dict(Sizes={4, 8, 16}, WrapUse=ALLW, ChainUse=ALLC, BreakUse={1, 2, 3, 4, 5, 6}, Pairs=False, ChainScale=4, PatternWraps={1, 2, 4, 6}, BlockUse=ALLB, Prefixes={0}),
+              # the same constructs after a long flat statement list: what precedes a construct must not change its cost
+              dict(Sizes={4, 8, 16}, WrapUse={1, 6, 11}, ChainUse=set(), BreakUse={1}, Pairs=False, ChainScale=1, PatternWraps=set(), BlockUse={1, 7, 9, 11}, Prefixes={3000}),
+              # deep nesting at the interpreter's default recursion limit, through parse_string (entry = "default_limit")
+              dict(Sizes={50, 100, 200, 400}, WrapUse={1, 2, 4}, ChainUse=set(), BreakUse={1}, Pairs=False, ChainScale=1, PatternWraps=set(), BlockUse={1}, Prefixes={0}, _reclimit=1000)],
+    "thorough": [dict(Sizes={4, 8, 16, 32}, WrapUse=ALLW, ChainUse=ALLC, BreakUse={1, 2, 3, 4, 5, 6}, Pairs=False, ChainScale=8, PatternWraps={1, 2, 4, 6}, BlockUse=ALLB, Prefixes={0}),
+                 dict(Sizes={3, 6, 12}, WrapUse={1, 2, 4, 5, 6, 7, 8, 9, 10, 11, 12, 15, 20, 25, 28}, ChainUse=set(), BreakUse={1, 3, 5, 6}, Pairs=True, ChainScale=1, PatternWraps={1, 2, 4, 6}, **NOB),
+                 dict(Sizes={4, 8, 16}, WrapUse={1, 2, 4, 6, 8, 11}, ChainUse=set(), BreakUse={1, 5}, Pairs=False, ChainScale=1, PatternWraps=set(), BlockUse=ALLB, Prefixes={3000, 6000}),
+                 dict(Sizes={50, 100, 200, 400, 800}, WrapUse={1, 2, 3, 4, 5, 6, 7, 11}, ChainUse=set(), BreakUse={1, 6}, Pairs=False, ChainScale=1, PatternWraps=set(), BlockUse={1, 4, 7}, Prefixes={0}, _reclimit=1000)],
 }
 
 
 def check(run: Run) -> None:
     fam: dict = collections.defaultdict(dict)
+    limit_of = {}
     for i, c in enumerate(TIERS[run.tier]):
+        c = dict(c)
+        reclimit = c.pop("_reclimit", None)
         f = os.path.join(run.dir, f"work{i}.ndjson")
         run_tlc(run, "Work", "INIT Init\nNEXT Next\nINVARIANT Export\nCHECK_DEADLOCK FALSE\n", env={"OUT": f}, name=f"work{i}", consts=c)
         for r in read_export(f):
-            fam[(r["k"], r["fam"], r["br"])][r["n"]] = r["src"]
+            k = (r["k"], ("default-recursion-limit:" if reclimit else "") + r["fam"], r["br"])
+            fam[k][r["n"]] = r["src"]
+            limit_of[k] = reclimit
         os.remove(f)
     keys = sorted(fam)
-    cases = [{"srcs": [fam[k][n] for n in sorted(fam[k])]} for k in keys]
+    cases = [{"srcs": [fam[k][n] for n in sorted(fam[k])], "reclimit": limit_of[k]} for k in keys]
     res = run_ops("c18", cases, limit=25.0, batch=4)
     traces = []
     for i, (k, r) in enumerate(zip(keys, res)):
         ns = sorted(fam[k])
-        pts = [[n, max(1, p["tokens"]), p["work"]] for n, p in zip(ns, r["series"])]
+        pts = [[n, max(1, p["tokens"]), min(p["work"], 500_000_000)] for n, p in zip(ns, r["series"])]
         exploded = len(r["series"]) < len(ns) or any(p["outcome"] == "timeout" for p in r["series"])
         if exploded:
             # the series was cut because the work budget / time limit was exceeded: record that as an unbounded point
